@@ -10,6 +10,20 @@ prefix-stable, never read past what they return, and report a truncated number a
 namespace Ivg.Codec
 open Ivg Num
 
+/-! ## exhaustive checks over bytes -/
+
+theorem forall_uint8_iff {p : UInt8 → Prop} :
+    (∀ x, p x) ↔ ∀ i : Fin 256, p (UInt8.ofNat i.val) := by
+  constructor
+  · intro h i; exact h _
+  · intro h x
+    have := h ⟨x.toNat, x.toNat_lt⟩
+    simpa using this
+
+/-- `decide` can enumerate all 256 bytes -/
+instance decForallUInt8 {p : UInt8 → Prop} [DecidablePred p] : Decidable (∀ x, p x) :=
+  decidable_of_iff _ forall_uint8_iff.symm
+
 /-- the width in bytes the encoder uses for the natural `u` -/
 def natWidth (u : Nat) : Nat := if u < 128 then 1 else if u < 16384 then 2 else 4
 
@@ -1839,5 +1853,85 @@ theorem coord_short_iff (f : F32) :
   · intro ⟨k, h1, h2, h⟩
     have := coord_short_of_feq f k h1 h2 h
     omega
+
+
+/-- encode → decode → encode → decode: the second round trip changes nothing (up to the sign of
+    zero: `rtCoord ⟨0x80000001⟩ = -0` but `rtCoord (-0) = +0`) and is not longer -/
+theorem rtCoord_idem (f : F32) :
+    (Enc.encodeCoordinate (rtCoord f)).length ≤ (Enc.encodeCoordinate f).length ∧
+      (rtCoord (rtCoord f) = rtCoord f ∨ (rtCoord (rtCoord f)).feq (rtCoord f) = true) := by
+  have h := decodeCoordinate_encodeCoordinate f []
+  have := reencode_coord h
+  simpa using this
+
+theorem rtReal_idem (f : F32) :
+    (Enc.encodeReal (rtReal f)).length ≤ (Enc.encodeReal f).length ∧
+      (rtReal (rtReal f) = rtReal f ∨ (rtReal (rtReal f)).feq (rtReal f) = true) := by
+  have h := decodeReal_encodeReal f []
+  have := reencode_real h
+  simpa using this
+
+/-! ## SetNReg at the instruction level -/
+
+theorem consumed_append (p r : Bytes) : Dec.consumed (p ++ r) r = p := by
+  simp [Dec.consumed]
+
+/-- `Dec.decodeStyling` on a SetNReg opcode runs exactly `nregDecoder opcode` on the operand bytes -/
+theorem decodeStyling_setNReg (opcode : UInt8) (h1 : 0xa8 ≤ opcode) (h2 : opcode < 0xc0)
+    (rest : Bytes) (f : F32) (rest' : Bytes) (hd : nregDecoder opcode rest = some (f, rest')) :
+    ∃ l0 l1, Dec.decodeStyling (opcode :: rest) =
+      ([.line l0, .line l1,
+        .call (.setNReg (if (opcode &&& 0x07) == 7 then 0 else opcode &&& 0x07) ((opcode &&& 0x07) == 7) f)],
+       .ok (.styling, rest')) ∧ l0.bytes = [opcode] ∧ l1.bytes = Dec.consumed rest rest' ∧
+       l1.kind = .nregNumber f := by
+  have n1 : ¬ opcode < 0x80 := by
+    rw [UInt8.le_iff_toNat_le] at h1; rw [UInt8.lt_iff_toNat_lt]
+    have : (0xa8 : UInt8).toNat = 168 := rfl
+    have : (0x80 : UInt8).toNat = 128 := rfl
+    omega
+  have n2 : ¬ opcode < 0xa8 := by
+    rw [UInt8.le_iff_toNat_le] at h1; rw [UInt8.lt_iff_toNat_lt]; omega
+  unfold Dec.decodeStyling
+  simp only [n1, n2, h2, if_false, if_true]
+  unfold nregDecoder at hd
+  generalize ((opcode - 0xa8) >>> 3).toNat = sel at hd ⊢
+  rcases sel with _ | _ | n <;> simp only [] at hd ⊢ <;> simp only [hd] <;>
+    exact ⟨_, _, rfl, rfl, rfl, rfl⟩
+
+set_option maxRecDepth 100000 in
+theorem nreg_opcode_facts : ∀ a : UInt8, a ≤ 7 → ∀ base ∈ [(0xa8 : UInt8), 0xb0, 0xb8],
+    0xa8 ≤ a ||| base ∧ a ||| base < 0xc0 ∧ (a ||| base) &&& 0x07 = a ∧
+      ((a ||| base) - 0xa8) >>> 3 = (base - 0xa8) >>> 3 := by
+  decide +kernel
+
+/-- **SetNReg instruction round trip**: opcode byte `adj | opcode` and payload as written by
+    `Encoder.setNReg` decode to the call `SetNReg(adj, incr, rtNReg f)`, consuming exactly opcode and
+    payload. -/
+theorem setNReg_instruction (f : F32) (a : UInt8) (ha : a ≤ 7) (rest : Bytes) :
+    ∃ l0 l1, Dec.decodeStyling ((a ||| (Enc.nregForm f).1) :: ((Enc.nregForm f).2 ++ rest)) =
+      ([.line l0, .line l1, .call (.setNReg (if a == 7 then 0 else a) (a == 7) (rtNReg f))],
+       .ok (.styling, rest)) ∧
+      l0.bytes = [a ||| (Enc.nregForm f).1] ∧ l1.bytes = (Enc.nregForm f).2 ∧
+      l1.kind = .nregNumber (rtNReg f) := by
+  have hb : (Enc.nregForm f).1 ∈ [(0xa8 : UInt8), 0xb0, 0xb8] := by
+    rcases nregForm_opcode f with h | h | h <;> simp [h]
+  obtain ⟨f1, f2, f3, f4⟩ := nreg_opcode_facts a ha _ hb
+  have hdec : nregDecoder (a ||| (Enc.nregForm f).1) = nregDecoder (Enc.nregForm f).1 := by
+    unfold nregDecoder; rw [f4]
+  have hd := nregForm_decodes f rest
+  rw [← hdec] at hd
+  obtain ⟨l0, l1, h, hl0, hl1, hk⟩ := decodeStyling_setNReg _ f1 f2 _ _ rest hd
+  rw [f3] at h
+  exact ⟨l0, l1, h, hl0, by rw [hl1, consumed_append], hk⟩
+
+/-- arc flags travel as a 1-byte natural: `uint32(float32(flags))` is the flag value again, and the
+    decoder's bit tests recover both flags -/
+theorem arcFlags_roundtrip (la sw : Bool) (rest : Bytes) :
+    ∃ fl, Dec.decodeNatural (Enc.encodeNatural (Enc.arcFlags la sw).toUInt32.toNat ++ rest) =
+      some (fl, 1, rest) ∧ (fl % 2 != 0) = la ∧ (fl / 2 % 2 != 0) = sw := by
+  have h : (Enc.arcFlags la sw).toUInt32.toNat = (if la then 1 else 0) + (if sw then 2 else 0) := by
+    cases la <;> cases sw <;> decide
+  rw [h, decodeNatural_encodeNatural _ (by cases la <;> cases sw <;> decide)]
+  cases la <;> cases sw <;> exact ⟨_, rfl, rfl, rfl⟩
 
 end Ivg.Codec
